@@ -55,6 +55,74 @@ def expected(cases):
     return out, r
 
 
+def float_expected(src, tgt):
+    """Transfer.tla's definitions (NearestCols, NearestLays, SurfaceLayer, Underground, AtmRule, InconRule) instantiated in
+    floating point for geometries off the lattice; ties within 1e-9 (relative) are all acceptable."""
+    sc = np.array([c.centre for c in src.columnlist])
+    slc = np.array([l.centre for l in src.layerlist[1:]])
+    satm = src.atmosphere_type if src.atmosphere_type in (0, 1) else 2
+    tatm = tgt.atmosphere_type if tgt.atmosphere_type in (0, 1) else 2
+
+    def surface_layer(i):
+        for j in range(1, len(src.layerlist)):
+            if src.layerlist[j].bottom < src.columnlist[i].surface:
+                return j
+        return len(src.layerlist) - 1
+    nearcols = []
+    for c in tgt.columnlist:
+        d = np.linalg.norm(sc - c.centre, axis=1)
+        nearcols.append([int(i) for i in np.nonzero(d <= d.min() * (1 + 1e-9) + 1e-9)[0]])
+    nearlays = {}
+    for lj in range(1, len(tgt.layerlist)):
+        d = np.abs(slc - tgt.layerlist[lj].centre)
+        nearlays[lj] = [int(j) + 1 for j in np.nonzero(d <= d.min() * (1 + 1e-9) + 1e-9)[0]]
+    und = []
+    for ic, c in enumerate(tgt.columnlist):
+        for lj in range(1, len(tgt.layerlist)):
+            if c.surface > tgt.layerlist[lj].bottom:
+                acc = set()
+                for i in nearcols[ic]:
+                    for j in nearlays[lj]:
+                        acc.add((i + 1, (j if src.columnlist[i].surface > src.layerlist[j].bottom else surface_layer(i)) + 1))
+                und.append({"b": [ic + 1, lj + 1], "s": sorted(acc)})
+    atm = ("no-target-atmosphere" if tatm == 2 else "source-has-none" if satm == 2 else "single-source-block" if satm == 0
+           else "per-mapped-column" if tatm == 1 else "any-source-atmosphere-block")
+    incon = {(2, 0): "none", (2, 1): "none", (2, 2): "none", (0, 0): "copy-single", (0, 1): "average-over-source-columns", (0, 2): "default",
+             (1, 0): "broadcast-single", (1, 1): "per-mapped-column", (1, 2): "default"}[(tatm, satm)]
+    return {"und": und, "atm": atm, "incon": incon}
+
+
+def shipped_pairs(tier, rng):
+    """Shipped geometries against themselves, a column refinement, a layer refinement, a shifted copy with other surfaces,
+    and each other (g7 / g1 overlap nothing: only same-family pairs)."""
+    m = core.repo_modules("mulgrids")
+    load = lambda n: m.mulgrid(os.path.join(core.REPO, "tests", "mulgrid", n + ".dat"))
+    for n in (["g7", "g5"] if tier == "quick" else ["g1", "g2", "g3", "g4", "g5", "g6", "g7"]):
+        with core.quiet():
+            a = load(n)
+            yield n + ":same", a, load(n)
+            b = load(n)
+            sel = [c for c in b.columnlist if c.num_nodes in (3, 4)]
+            b.refine(rng.sample(sel, max(1, len(sel) // 5)))
+            b.setup_block_name_index()
+            yield n + ":refined-target", a, b
+            yield n + ":refined-source", b, a
+            c = load(n)
+            c.refine_layers([c.layerlist[k] for k in range(1, c.num_layers, 3)], factor=2)
+            c.setup_block_name_index()
+            yield n + ":layers-target", a, c
+            d = load(n)
+            w = a.bounds[1] - a.bounds[0]
+            d.translate(np.array([0.013 * w[0], -0.021 * w[1], 0.37 * (a.layerlist[1].top - a.layerlist[1].bottom)]))
+            for col in d.columnlist[::4]:
+                col.surface = min(col.surface, d.layerlist[min(3, d.num_layers - 1)].centre)
+                d.set_column_num_layers(col)
+            d.atmosphere_type = (a.atmosphere_type + 1) % 3
+            d.setup_block_name_index()
+            yield n + ":shifted-resurfaced-target", a, d
+            yield n + ":shifted-resurfaced-source", d, a
+
+
 def run(tier):
     rep = core.Report("C19", tier, "model_checking")
     quick = tier == "quick"
@@ -84,6 +152,10 @@ def run(tier):
         pairs.append((kind, src, tgt))
     cases = [{"src": descriptor(s), "tgt": descriptor(t)} for _, s, t in pairs]
     exps, r = expected(cases)
+    for name, a, b in shipped_pairs(tier, rng):
+        pairs.append((name, a, b))
+        cases.append({"src": {"atm": a.atmosphere_type}, "tgt": {"atm": b.atmosphere_type}, "mesh": name, "n": len(pairs)})
+        exps.append(float_expected(a, b))
     rep.add_tlc("Transfer.tla on %d geometry pairs: totality, identity on equal geometries, acceptable source blocks per target block" % len(cases), r)
     for (kind, src, tgt), e in zip(pairs, exps):
         key = "src%d->tgt%d" % (e and cases[pairs.index((kind, src, tgt))]["src"]["atm"], cases[pairs.index((kind, src, tgt))]["tgt"]["atm"])
@@ -204,8 +276,10 @@ def run(tier):
     rep.sample({"pair": pairs[0][0], "source": cases[0]["src"], "target_columns": len(cases[0]["tgt"]["cols"]), "atm_rule": exps[0]["atm"], "incon_rule": exps[0]["incon"]})
     rep.rule = ("random pairs of lattice geometries (identical, finer, coarser, shifted, re-layered, differently surfaced) x 3x3 atmosphere "
                 "types x conventions; Transfer.tla gives the acceptable source blocks (ties allowed) and the atmosphere rules; "
-                "block_mapping, t2incon.transfer_from (distinct state per source block) and t2data.transfer_from compared")
-    rep.leaves = ["atmosphere average compared numerically (1e-12)"]
+                "block_mapping, t2incon.transfer_from (distinct state per source block) and t2data.transfer_from compared; shipped geometries "
+                "paired with themselves, refinements, layer refinements and shifted / re-surfaced copies against the same definitions in floating point")
+    rep.leaves = ["atmosphere average compared numerically (1e-12)",
+                  "on pairs built from shipped geometries the acceptable sets are Transfer.tla's definitions instantiated in floating point (float_expected, ties within 1e-9), not evaluated by TLC"]
     rep.assumptions = ["when the source has no atmosphere blocks nothing is demanded of the target's atmosphere blocks' mapping"]
     rep.exhaustive = False
     return rep.finish()
